@@ -110,6 +110,10 @@ add("C26", "exhaustive enumeration of all types up to depth 2 (3 thorough) over 
     "About 5*10^7 (quick) / 5*10^8 (thorough) distinct types are built with the real interner (which runs compute_flags) and the stored flags, masked to the occurrence flags, are compared with a reference computed on the harness's own AST from the flag doc comments; STILL_FURTHER_SPECIALIZABLE is masked out; four (flag, construct) pairs whose doc comment is ambiguous are don't-care.",
     "Trusted: the occurrence model in harness/src/props/c26.rs. Written by a helper agent; mutants of compute_flags (dropped const type, dyn bound, ref lifetime, fn-pointer substitution flags) were all detected.",
     "DESIGN.md §4 C26")
+add("C27", "fault enumeration: every vector length x every failure position x {success, error return, panic} x element layout pairs through the real in-place map (hook H4) and the public TypeFoldable route; drop logs + counting allocator as oracles; thorough replays the enumeration under Miri",
+    "949 (quick) / 1918 (thorough) executions: each element must be dropped exactly once (none during a successful call), errors and panics must propagate, and the thread's live heap bytes must return to their starting value, for 8 vector layout pairs incl. both fallback and in-place paths, zero-sized types, boxes, and Vec<T>/Box<T>: TypeFoldable with a failing folder. The thorough tier additionally runs the same enumeration (480 executions) in the Miri interpreter, which flags use of freed or uninitialised memory, double frees and leaks on each execution.",
+    "Miri is used only as a per-execution UB detector on enumerated executions, not as a search. Without Miri the oracle cannot see UB that neither double-drops, leaks nor unbalances the allocator.",
+    "DESIGN.md §4 C27", category="fault_enumeration")
 add("C28", "exhaustive small-scope enumeration with a structural well-formedness monitor on every returned solution",
     "Every solution returned by either solver (and every enumerated SLG answer) over the reduced C01 corpus plus goals with lifetime/const unknowns and nested forall is checked: one entry per query variable, matching kinds, bound variables only at the solution's own binder and in range, no universe the query cannot name, no inference variables, and applying it to the query does not panic.",
     "The monitor reads chalk's values through the public visitor API.",
